@@ -7,6 +7,7 @@ package main
 import (
 	"encoding/json"
 	"flag"
+	"fmt"
 	"os"
 	"reflect"
 	"strings"
@@ -137,6 +138,25 @@ func runRelCase(c relCase) relEvent {
 			}
 			// twice: the listing must not depend on a previous call either
 			_ = s.Rels()
+			rels := s.Rels()
+			lst := make([]yRel, 0, len(rels))
+			for _, r := range rels {
+				lst = append(lst, yOf(r))
+			}
+			ev.Perms = append(ev.Perms, lst)
+		}
+		// the same schema declared by hand, every type keeping its relationships under keys of its
+		// author's choosing (Check, which reads the relationships themselves, reports nothing either):
+		// the same listing
+		{
+			s := &jsonapi.Schema{}
+			for _, t0 := range c.Schema {
+				t := jsonapi.Type{Name: t0.Name.String(), Rels: map[string]jsonapi.Rel{}}
+				for k, r := range t0.Rels {
+					t.Rels[fmt.Sprintf("key%d", k)] = r.real()
+				}
+				must(s.AddType(t))
+			}
 			rels := s.Rels()
 			lst := make([]yRel, 0, len(rels))
 			for _, r := range rels {
